@@ -4,8 +4,11 @@ import (
 	"encoding/json"
 	"fmt"
 	"os"
+	"sort"
+	"strings"
 
 	hg "github.com/mosaicnetworks/babble/src/hashgraph"
+	"github.com/mosaicnetworks/babble/src/peers"
 	"verifharness/hx"
 )
 
@@ -42,8 +45,6 @@ func (h *hist) fastForward(a *hx.Node) {
 		w.Violation("C15", "anchor-does-not-survive-json", fmt.Sprintf("server=%d", b.ID))
 		return
 	}
-	// application snapshot = the server's state after the anchor block
-	a.App.State = append([]byte{}, block.StateHash()...)
 	if os.Getenv("VERIF_FFDEBUG") != "" {
 		h0, _ := frame.Hash()
 		h1, _ := frm.Hash()
@@ -65,23 +66,203 @@ func (h *hist) fastForward(a *hx.Node) {
 				b.ID, block.Index(), fmt.Sprintf("%X", h0) == fmt.Sprintf("%X", block.FrameHash()), fmt.Sprintf("%X", h1) == fmt.Sprintf("%X", h0), m0, m1)
 		}
 	}
+	rline := h.resetLine(a, b, &blk, &frm)
+	// who signed the anchor, and which validators the joiner has reason to trust (core.knownValidators)
+	signers, known := []int{}, map[int]bool{}
+	for _, bs := range blk.GetSignatures() {
+		signers = append(signers, w.Ord(bs.ValidatorHex()))
+	}
+	sort.Ints(signers)
+	for _, o := range h.genesis {
+		known[o] = true
+	}
+	for _, ps := range []*peers.PeerSet{a.Core.Peers(), a.Core.Validators()} {
+		if ps != nil {
+			for _, p := range ps.Peers {
+				known[w.Ord(p.PubKeyHex)] = true
+			}
+		}
+	}
+	if all, err := a.Store.GetAllPeerSets(); err == nil {
+		for _, ps := range all {
+			for _, p := range ps {
+				known[w.Ord(p.PubKeyHex)] = true
+			}
+		}
+	}
+	knownL := []int{}
+	for o := range known {
+		knownL = append(knownL, o)
+	}
+	sort.Ints(knownL)
 	if err := a.Core.FastForward(&blk, &frm); err != nil {
-		w.Violation("C13", "honest-anchor-refused", fmt.Sprintf("node=%d server=%d block=%d err=%v", a.ID, b.ID, block.Index(), err))
+		// (the application is restored from the snapshot only after the check: fix 52c591c)
+		// Since fix a41e4c4 an honest anchor is LEGITIMATELY refused when at most TrustCount of its signers are
+		// validators the joiner already knows (Properties/C14.v C14_honest_accept_iff: adopted iff more than
+		// TrustCount known signers). That is a statistic, not a violation; a refusal with enough known signers,
+		// or for any other reason (e.g. Invalid Frame Hash), is one.
+		knownSigners := 0
+		members := map[int]bool{}
+		for _, p := range frm.Peers {
+			members[w.Ord(p.PubKeyHex)] = true
+		}
+		for _, o := range signers {
+			if members[o] && known[o] {
+				knownSigners++
+			}
+		}
+		trust := peers.NewPeerSet(frm.Peers).TrustCount()
+		detail := fmt.Sprintf("node=%d server=%d block=%d err=%v signers=%v frame-peers=[%s] known-to-joiner=%v known-signers=%d trust-count=%d",
+			a.ID, b.ID, block.Index(), err, signers, hxPeers(w, frm.Peers), knownL, knownSigners, trust)
+		if strings.Contains(err.Error(), "Not enough valid signatures") && knownSigners <= trust {
+			h.actions["honest-anchor-refused-too-few-known-signers"]++
+			fmt.Fprintf(w.Out, "# honest-anchor-refused-too-few-known-signers %s\n", detail)
+		} else {
+			w.Violation("C13", "honest-anchor-refused", detail)
+		}
 		a.PendingFF = false
+		// the model is not told about a refused anchor (checkFastForward is C12/C14's model): the
+		// node is no longer compared with it
+		a.Faulty = true
+		fmt.Fprintf(w.Out, "F %d\n", a.ID)
 		return
 	}
+	// application snapshot = the server's state after the anchor block (node.fastForward restores it between
+	// checkFastForward and core.fastForward; the core does not read the application)
+	a.App.State = append([]byte{}, block.StateHash()...)
 	if err := a.Core.ProcessAcceptedInternalTransactions(blk.RoundReceived(), blk.InternalTransactionReceipts()); err != nil {
 		h.actions["ff-receipts-error"]++
 	}
 	a.PendingFF = false
 	a.WasReset = true
 	a.Base = blk.Index() + 1
-	a.Faulty = true // Reset is not in the Coq model: the node is no longer compared with it
-	fmt.Fprintf(w.Out, "F %d\n", a.ID)
+	a.Faulty = true // excluded from the full-history oracles (frame / conservation); still compared with the model
+	// Reset / InsertFrameEvent / fastForward are in the Coq model (Model/HgReset.v): the model victim
+	// is reset from the same block + frame and compared after every action like any other node
+	fmt.Fprintf(w.Out, "%s => ok\n", rline)
 	h.actions["fast-forwards"]++
+	h.actions["ff-frame-events"] += len(frm.Events)
+	for _, r := range frm.Roots {
+		h.actions["ff-root-events"] += len(r.Events)
+	}
+	if len(frm.PeerSets) > 1 {
+		h.actions["ff-multi-peerset-frames"]++
+	}
+	switch n := len(frm.PeerSets); {
+	case n >= 3:
+		h.actions["ff-frames-with-3plus-peersets"]++ // Store.Reset ranges over a Go map: insertion order matters from 3 entries on
+	case n == 2:
+		h.actions["ff-frames-with-2-peersets"]++
+	default:
+		h.actions["ff-frames-with-1-peerset"]++
+	}
 	h.ffAnchorRR = append(h.ffAnchorRR, blk.RoundReceived())
-	a.ResetKnown()
+	hexes := []string{}
+	for _, fe := range frm.SortedFrameEvents() {
+		hexes = append(hexes, fe.Core.Hex())
+	}
+	a.ResetTracked(hexes)
 	h.after(a, false)
+}
+
+func hxPeers(w *hx.World, ps []*peers.Peer) string {
+	l := []string{}
+	for _, p := range ps {
+		l = append(l, fmt.Sprint(w.Ord(p.PubKeyHex)))
+	}
+	return strings.Join(l, " ")
+}
+
+// resetLine: the anchor block and frame as RECEIVED by the victim (after the JSON transport), with the
+// cores of all frame / root events, in the format read by runner/resetdrv.ml.
+func (h *hist) resetLine(a, b *hx.Node, blk *hg.Block, frm *hg.Frame) string {
+	w := h.w
+	var sb strings.Builder
+	b2i := func(x bool) int {
+		if x {
+			return 1
+		}
+		return 0
+	}
+	fmt.Fprintf(&sb, "R %d %d B %d %d %d %d %d T %d", a.ID, b.ID, blk.Index(), blk.RoundReceived(), blk.Timestamp(),
+		w.BodyID(blk), b2i(len(blk.StateHash()) > 0), len(blk.Transactions()))
+	for _, tx := range blk.Transactions() {
+		fmt.Fprintf(&sb, " %d", hx.TxSerialOf(tx))
+	}
+	acc := map[int]bool{}
+	for _, r := range blk.InternalTransactionReceipts() {
+		it := r.InternalTransaction
+		acc[w.ItxID(&it)] = r.Accepted
+	}
+	fmt.Fprintf(&sb, " X %d", len(blk.InternalTransactions()))
+	for _, itx := range blk.InternalTransactions() {
+		it := itx
+		vok, _ := it.Verify()
+		p := it.Body.Peer
+		id := w.ItxID(&it)
+		fmt.Fprintf(&sb, " %d %d %d %d %d %d", id, b2i(it.Body.Type == hg.PEER_ADD), p.ID(), w.Ord(p.PubKeyHex), b2i(vok), b2i(acc[id]))
+	}
+	type se struct{ v, o int }
+	sl := []se{}
+	for _, bs := range blk.GetSignatures() {
+		sl = append(sl, se{w.Ord(bs.ValidatorHex()), w.SigOver(bs)})
+	}
+	sort.Slice(sl, func(i, j int) bool { return sl[i].v < sl[j].v })
+	fmt.Fprintf(&sb, " G %d", len(sl))
+	for _, s := range sl {
+		fmt.Fprintf(&sb, " %d %d", s.v, s.o)
+	}
+	peersFull := func(ps []*peers.Peer) string {
+		var pb strings.Builder
+		fmt.Fprintf(&pb, "%d", len(ps))
+		for _, p := range ps {
+			fmt.Fprintf(&pb, " %d:%d", p.ID(), w.Ord(p.PubKeyHex))
+		}
+		return pb.String()
+	}
+	fes := func(l []*hg.FrameEvent) string {
+		var fb strings.Builder
+		fmt.Fprintf(&fb, "%d", len(l))
+		for _, fe := range l {
+			fmt.Fprintf(&fb, " %d:%d:%d:%d", w.Eid(fe.Core.Hex()), fe.Round, fe.LamportTimestamp, b2i(fe.Witness))
+		}
+		return fb.String()
+	}
+	fmt.Fprintf(&sb, " FR %d %d P %s", frm.Round, frm.Timestamp, peersFull(frm.Peers))
+	rs := []int{}
+	for r := range frm.PeerSets {
+		rs = append(rs, r)
+	}
+	sort.Ints(rs)
+	fmt.Fprintf(&sb, " PS %d", len(rs))
+	for _, r := range rs {
+		fmt.Fprintf(&sb, " %d %s", r, peersFull(frm.PeerSets[r]))
+	}
+	fmt.Fprintf(&sb, " EV %s", fes(frm.Events))
+	ords := []int{}
+	byOrd := map[int]*hg.Root{}
+	for k, r := range frm.Roots {
+		o := w.Ord(k)
+		ords = append(ords, o)
+		byOrd[o] = r
+	}
+	sort.Ints(ords)
+	fmt.Fprintf(&sb, " ROOTS %d", len(ords))
+	cores := []*hg.Event{}
+	for _, o := range ords {
+		fmt.Fprintf(&sb, " %d %s", o, fes(byOrd[o].Events))
+		for _, fe := range byOrd[o].Events {
+			cores = append(cores, fe.Core)
+		}
+	}
+	for _, fe := range frm.Events {
+		cores = append(cores, fe.Core)
+	}
+	fmt.Fprintf(&sb, " CORES %d", len(cores))
+	for _, c := range cores {
+		fmt.Fprintf(&sb, " %s", w.EventLine(c))
+	}
+	return sb.String()
 }
 
 
@@ -91,6 +272,7 @@ func (h *hist) resetPeerSetOracle(a *hx.Node) {
 		return
 	}
 	w := h.w
+	h.resetLookupOracle(a)
 	mine, _ := a.Store.GetAllPeerSets()
 	for _, o := range h.nodes {
 		if o == a || o.WasReset {
@@ -111,6 +293,45 @@ func (h *hist) resetPeerSetOracle(a *hx.Node) {
 					return
 				}
 			}
+		}
+	}
+}
+
+// resetLookupOracle (C13 / C10_lookup on reset nodes): Store.Reset records the frame's validator-set history by
+// ranging over a Go map, i.e. in any order. Whatever the order, for EVERY round r (not only the rounds that are keys
+// of the table) GetPeerSet(r) must be the entry of the node's own reported history (GetAllPeerSets) with the greatest
+// round <= r (the first entry below all of them).
+func (h *hist) resetLookupOracle(a *hx.Node) {
+	w := h.w
+	all, err := a.Store.GetAllPeerSets()
+	if err != nil || len(all) == 0 {
+		return
+	}
+	keys := []int{}
+	for r := range all {
+		keys = append(keys, r)
+	}
+	sort.Ints(keys)
+	top := keys[len(keys)-1] + 3
+	if lr := a.Store.LastRound() + 3; lr > top {
+		top = lr
+	}
+	for r := 0; r <= top; r++ {
+		want := keys[0]
+		for _, k := range keys {
+			if k <= r {
+				want = k
+			}
+		}
+		got, err := a.Store.GetPeerSet(r)
+		h.actions["ff-lookup-probes"]++
+		if err != nil {
+			w.Violation("C13", "reset-node-peer-set-lookup-wrong", fmt.Sprintf("node=%d round=%d error=%v", a.ID, r, err))
+			return
+		}
+		if g, e := hxPeers(w, got.Peers), hxPeers(w, all[want]); g != e {
+			w.Violation("C13", "reset-node-peer-set-lookup-wrong", fmt.Sprintf("node=%d round=%d got=[%s] expected-entry-of-round-%d=[%s] table-rounds=%v", a.ID, r, g, want, e, keys))
+			return
 		}
 	}
 }
